@@ -16,6 +16,24 @@ fn main() {
         }
         return;
     }
+    if args.len() == 2 && args[1] == "--selftest" {
+        // round_stub == f32::round for every bit pattern (NaN: both NaN)
+        let mut bad = 0u64;
+        let mut first: Option<u32> = None;
+        let mut b: u64 = 0;
+        while b <= u32::MAX as u64 {
+            let x = f32::from_bits(b as u32);
+            let (a, r) = (vharness::shared_stubs::round_stub(x), x.round());
+            let same = if r.is_nan() { a.is_nan() } else { a.to_bits() == r.to_bits() };
+            if !same {
+                bad += 1;
+                if first.is_none() { first = Some(b as u32); }
+            }
+            b += 1;
+        }
+        println!("SELFTEST round_stub vs f32::round over 2^32 bit patterns: mismatches={} first={:?}", bad, first);
+        std::process::exit(if bad == 0 { 0 } else { 1 });
+    }
     if args.len() < 3 {
         eprintln!("usage: replay <harness> <vals.json>");
         std::process::exit(3);
